@@ -34,14 +34,15 @@ def norm2 (a : List α) : α := dot a a
 def dist2V (a b : List α) : α := norm2 (vsub a b)
 def dist2VGrad (a b : List α) : List α := vscale 2.0 (vsub a b)
 
-/-- unit vector: `acos(v1·v2)^2` -/
-def dist2U (a b : List α) : α := sq (Prim.acos (dot a b))
-/-- `2 acos(c) * (-1)/sqrt(1-c^2) * v2` -/
+def clampCos (c : α) : α := if c > 1.0 then 1.0 else if c < -1.0 then -1.0 else c
+
+/-- unit vector: `acos(v1·v2)^2`, the product clamped to [-1, 1] (rounding can push it outside) -/
+def dist2U (a b : List α) : α := sq (Prim.acos (clampCos (dot a b)))
+/-- `2 acos(c) * (-1)/sqrt(1-c^2) * v2`; a null vector for equal or opposite directions (as for quaternions) -/
 def dist2UGrad (a b : List α) : List α :=
   let c := dot a b
+  if 1.0 - c * c ≤ 0.0 then [0.0, 0.0, 0.0] else
   vscale (2.0 * Prim.acos c * (-1.0) / Prim.sqrt (1.0 - c * c)) b
-
-def clampCos (c : α) : α := if c > 1.0 then 1.0 else if c < -1.0 then -1.0 else c
 
 /-- the constant `PI` of colvarmodule.h (a decimal literal: the double nearest to π when run on `Float`).
     The quaternion functions take the constant as a parameter; theorems instantiate it with `Real.pi`. -/
